@@ -114,6 +114,33 @@ def build():
                 R.add(f"stable[{fname}][{cname(c)}]{tag}", kind="struct", samples=6, thorough_only=(fname != "vanilla" and c.__module__.endswith(".core")))(mk_st())
 
 
+    # printing has no memory: after an operand was changed in place the text is that of the CURRENT instruction
+    def mk_reprint(fname, c, kinds):
+        def f(ctx):
+            names = operand_fields(c)
+            x = mk_instr(ctx, c, kinds)
+            ctx.call(str, x)
+            ctx.getattr(x, "debug_str")
+            for n, kind in zip(names, kinds):
+                ctx.setattr(x, n, mk_operand(ctx, kind, f"y_{n}"))
+            s2 = ctx.call(str, x)
+            fl = _flavour(ctx, fname)
+            out = ctx.attempt(parse_text_subroutine, ctx.add(ctx.add(PRE, s2), "\n"), flavour=fl)
+            ctx.check("text printed after an in-place change is accepted by the parser", out[0] == "ret")
+            if out[0] == "ret":
+                ins = ctx.getattr(out[1], "instructions")
+                ctx.check("text printed after an in-place change parses back to the CURRENT instruction",
+                          ctx.truth(ctx.eq(ctx.len(ins), 1)) and ctx.truth(ctx.eq(ctx.index(ins, 0), x)))
+        return f
+    for fname in FLAVOURS:
+        for c in flavour_classes(fname):
+            ent = table_entry(c, fname)
+            if ent is None or not ent[1] or sum(1 for k in ent[1] if k in ("reg", "entry", "slice")) > 1:
+                continue
+            if fname != "vanilla" and c.__module__.endswith(".core"):
+                continue
+            R.add(f"reprint-after-update[{fname}][{cname(c)}]", kind="struct", samples=6)(mk_reprint(fname, c, ent[1]))
+
     def canary(ctx):
         from netqasm.lang.instr import core
         from netqasm.lang.operand import Immediate, Register
